@@ -123,19 +123,21 @@ func (exec *BatchExecutor) Route(op kmip.Operation, hdl OperationHandler) {
 //   - This function does not return errors directly. If an error occurs during middleware or request handling,
 //     the error is converted into a KMIP error response message.
 func (exec *BatchExecutor) HandleRequest(ctx context.Context, req *kmip.RequestMessage) *kmip.ResponseMessage {
-	i := 0
-	var next Next
-	next = func(ctx context.Context, rm *kmip.RequestMessage) (*kmip.ResponseMessage, error) {
-		if i < len(exec.middlewares) {
-			mdl := exec.middlewares[i]
-			i++
-			return mdl(next, ctx, req)
+	// chain(i) is the continuation that runs the middlewares from index i on,
+	// the batch executor being innermost; it hands on the context and message it
+	// receives, and has its own position so that it can be called several times.
+	var chain func(i int) Next
+	chain = func(i int) Next {
+		return func(ctx context.Context, rm *kmip.RequestMessage) (*kmip.ResponseMessage, error) {
+			if i < len(exec.middlewares) {
+				return exec.middlewares[i](chain(i+1), ctx, rm)
+			}
+			return exec.handleRequest(ctx, rm)
 		}
-		return exec.handleRequest(ctx, req)
 	}
 
 	ctx = newBatchContext(ctx, req.Header)
-	resp, err := next(ctx, req)
+	resp, err := chain(0)(ctx, req)
 
 	if err != nil {
 		return exec.handleMessageError(ctx, req, err)
